@@ -78,6 +78,11 @@ def run_f(case):
     fn = calculate_checksum_tcp if proto == "tcp" else calculate_checksum_udp
     fails = []
     n = nontriv = 0
+    # packets of the OTHER transport protocol between the same two addresses are verified in between (a correct one must be
+    # accepted whatever was verified before it)
+    other = "udp" if proto == "tcp" else "tcp"
+    ofn = calculate_checksum_udp if proto == "tcp" else calculate_checksum_tcp
+    opk = [Packet(net.build_frame(a, b_, other, b"interleaved" + bytes([k]), seq=7, ack=9), 1.0) for k, (a, b_) in enumerate(((src, dst), (dst, src)))]
     sample = None
     outcomes = set()
     lo = case["chunk"] * 8192
@@ -119,6 +124,12 @@ def run_f(case):
                 fails.append({"kind": kind, "sig": {"v6": v6, "proto": proto, "odd": odd, "base": case["base"],
                                                     "computed": f"{correct:#06x}" if correct in (0, 0xFFFF) else "other"},
                               "sub": {"w": w, "field": val}, "detail": f"word {w:#06x}: field {val:#06x}, correct {correct:#06x}"})
+        if w % 1024 == 0:
+            for k, q in enumerate(opk):
+                n += 1
+                if not ofn(q):
+                    fails.append({"kind": "correct_checksum_rejected", "sig": {"v6": v6, "proto": other, "interleaved_with": proto},
+                                  "detail": f"a correct {other} packet between the same addresses was rejected after {proto} packets were verified"})
         if raw > 0xFFFF:
             nontriv += 1
         outcomes.add(correct in (0, 0xFFFF))
@@ -141,6 +152,9 @@ def run_p(case):
     f2 = scen.quic_flow({"suite": 0x1301}, seed, 1, v6=True)
     f3 = scen.tls_flow({"version": tls.TLS13, "suite": 0x1301, "history": [("c", 10), ("s", 10)]}, seed, 2, v6=True)
     f4 = scen.quic_flow({"suite": 0x1303, "script": [("c", [(0, 11)]), ("s", [(0, 12)])]}, seed, 3)
+    # the QUIC connections run between the same two hosts as the TLS connections (same addresses, TCP and UDP)
+    f2.ends.client.ip, f2.ends.server.ip = f3.ends.client.ip, f3.ends.server.ip
+    f4.ends.client.ip, f4.ends.server.ip = f1.ends.client.ip, f1.ends.server.ip
     flows = [f1, f2, f3, f4]
     ends = {f.id: f.ends for f in flows}
     pkts = cap.stamp(scen.round_robin([f.pkts for f in flows]), ends)
@@ -151,7 +165,7 @@ def run_p(case):
     des = []
     for f in flows:
         idx = [i for i, p in enumerate(pkts) if p.conn == f.id and p.payload]
-        des += [idx[1], idx[-1]]
+        des += [idx[0], idx[-1]] if f.id in (0, 1) else [idx[1], idx[len(idx) // 2]]
     fails, nontriv, outcomes = [], [], set()
     n = 0
     sample = None
